@@ -66,25 +66,38 @@ string; JSON floats that are integers are integers) — both documents are decod
 specifications, so the relation is `target.approx` on the decoded source values. -/
 def xApprox (_s d : Codec) (opts : String) (src got : List Val) : Bool := allApprox d opts src got
 
-/-- lru <cap> <keys> -/
+/-- "pos:cap,pos:cap": EnableKeyCache(cap) again before key number pos -/
+def parseReenable (s : String) : Option (List (Nat × Int)) :=
+  if s == "-" then some [] else
+  allSome ((s.splitOn ",").map fun pc =>
+    match pc.splitOn ":" with
+    | [p, c] => (decToNat? p).bind fun p' => (decToInt? c).map fun c' => (p', c')
+    | _ => none)
+
+/-- lru <cap> <keys> [<pos:cap,…>] -/
 def opLRU (args : List String) (impl : String) : Result :=
+  let (args, reS) := match args with
+    | [a, b, c] => ([a, b], c)
+    | _ => (args, "-")
   match args with
   | [capS, keysS] =>
-    match decToInt? capS, parseChunks keysS with
-    | some cap, some keys =>
+    match decToInt? capS, parseChunks keysS, parseReenable reS with
+    | some cap, some keys, some re =>
       let showSt (c : Symbols.Cache) : String :=
         if !c.enabled then "off" else
           (if c.lst.isEmpty then "-" else ".".intercalate (c.lst.map hxe)) ++ "/" ++ toString c.m.length
-      let rec go (c : Symbols.Cache) (ks : List Bytes) (acc : List String) (seen : List Bytes) :
+      let rec go (c : Symbols.Cache) (i : Nat) (ks : List Bytes) (acc : List String) (seen : List Bytes) :
           Option (List String × List Bytes) :=
         match ks with
         | [] => some (acc.reverse, seen)
         | k :: rest =>
+          -- EnableKeyCache(c) = keyCache.init(c): a fresh cache of the new capacity
+          let c := (re.filter (·.1 == i)).foldl (fun _ pc => Symbols.init pc.2) c
           match Symbols.get c k with
           | .panic => none
-          | .ok (c', v) => go c' rest (showSt c' :: acc) (if seen.contains v then seen else v :: seen)
+          | .ok (c', v) => go c' (i + 1) rest (showSt c' :: acc) (if seen.contains v then seen else v :: seen)
       let model :=
-        match go (Symbols.init cap) keys [] [] with
+        match go (Symbols.init cap) 0 keys [] [] with
         | none => "panic"
         | some (steps, seen) =>
           let ks := (seen.map hxe).toArray.qsort (· < ·) |>.toList
@@ -101,7 +114,7 @@ def opLRU (args : List String) (impl : String) : Result :=
         else if got != want then [s!"C20 cache-changes-result cap={capS} got={got} want={want}"]
         else []
       { model := some model, fails := fails }
-    | _, _ => { model := none }
+    | _, _, _ => { model := none }
   | _ => { model := none }
 
 def optsOf (s : String) : String := if s == "-" then "" else s
@@ -351,6 +364,16 @@ def runLine (op : String) (impl : String) : Result :=
   | "unf-seq" :: args => opUnfSeq args impl
   | "fu" :: args => opFu args impl
   | "unf-user" :: _ => opUnfUser impl
+  | "foldifc" :: _ =>
+    -- static types that are non-empty interfaces (outside the mirror's universe): the fold must
+    -- equal the fold of the same data held in interface{} containers; a dead child = an
+    -- invalid pointer conversion
+    { model := some "same",
+      fails := if impl == "fatal" then ["C15 fold-of-non-empty-interface-type-kills-the-process (invalid pointer conversion)",
+                                        "C12 fold-of-non-empty-interface-type-kills-the-process"]
+               else if impl == "panic" then ["C12 fold-of-non-empty-interface-type-panics", "C15 fold-of-non-empty-interface-type-panics"]
+               else if impl.startsWith "differ" then [s!"C12 fold-of-non-empty-interface-type-differs {impl.take 160}"]
+               else [] }
   | "alias" :: args => opAlias args impl
   | "aliasrec" :: args => opAliasRec args impl
   | "unfx" :: args => opUnfWhatIf args impl
